@@ -33,6 +33,9 @@ pub struct Case {
     pub wchunk: Chunk,
     pub rchunk: Chunk,
     pub mode: Mode,
+    /// writer target: every fault is also met by callers that go on after the failed call
+    #[serde(default)]
+    pub persistent: bool,
 }
 
 pub struct C16;
@@ -59,18 +62,21 @@ fn flavours(op: &DevOp) -> Vec<FaultKind> {
     match op.kind {
         OpKind::Read => vec![
             FaultKind::Error,
+            FaultKind::Transient { kind: (op.no % 6) as u8 },
+            FaultKind::Transient { kind: 2 },
             FaultKind::ShortThenError { bytes: 1 },
             FaultKind::ShortThenError { bytes: (op.want / 2).max(1) as u32 },
             FaultKind::Interrupted,
         ],
         OpKind::Write => vec![
             FaultKind::Error,
+            FaultKind::Transient { kind: (op.no % 6) as u8 },
             FaultKind::ShortThenError { bytes: (op.want / 2).max(1) as u32 },
             FaultKind::Interrupted,
             FaultKind::WriteZero,
             FaultKind::NoSpace,
         ],
-        OpKind::Seek | OpKind::Flush => vec![FaultKind::Error],
+        OpKind::Seek | OpKind::Flush => vec![FaultKind::Error, FaultKind::Transient { kind: (op.no % 6) as u8 }],
     }
 }
 
@@ -153,6 +159,52 @@ fn judge_writer(exec: &Executed, image: &[u8], ctx: &Ctx, disk: &SimDisk, refere
     None
 }
 
+/// Oracle for a caller that goes on after a failed call (OnError::Continue / RetryFinalize): errors
+/// still surface, and if the top-level finalize reports success the device holds a complete file:
+/// it opens, and everything whose calls all succeeded reads back as handed in.
+fn judge_persistent(exec: &Executed, image: &[u8], ctx: &Ctx, st: &mut RunStats) -> Option<(String, String)> {
+    {
+        let c = ctx.borrow();
+        for op in c.log.iter().filter(|o| o.err == 1 || o.err == 3) {
+            if op.no >= exec.drop_op_from {
+                continue;
+            }
+            match exec.calls.iter().find(|cl| cl.op_from <= op.no && op.no < cl.op_to) {
+                Some(cl) if cl.ok => {
+                    return Some(("device-error-swallowed".into(), format!("device op #{} ({} at offset {}) failed but {} returned Ok", op.no, op.kind.name(), op.offset, cl.label)));
+                }
+                Some(_) => {}
+                None => return Some(("fault-outside-call".into(), format!("device op {} failed outside any API call and outside Drop", op.no))),
+            }
+        }
+    }
+    if !exec.completed {
+        st.probe("finalize_fails_after_earlier_failure", exec.first_failure.is_some());
+        return None;
+    }
+    st.probe("finalize_ok_after_earlier_failure", exec.first_failure.is_some());
+    if exec.dirty_after_finalize {
+        return Some(("ok-but-unflushed".into(), "top-level finalize returned Ok but the device has unflushed writes".into()));
+    }
+    let rctx = new_ctx(vec![]);
+    let rb = match read_back(image, &rctx, &Chunk::Full, &Chunk::Full, &exec.blob_descs) {
+        Ok(rb) => rb,
+        Err(e) => {
+            return Some((
+                "ok-but-incomplete-file".into(),
+                format!("the caller went on after a failed call; top-level finalize then returned Ok, but the file on the device does not open or read: {e}"),
+            ))
+        }
+    };
+    if let Some((class, detail)) = compare_points(&rb.file, &exec.expected.file).or_else(|| compare_blobs(&rb, &exec.expected)) {
+        return Some((
+            "ok-but-incomplete-file".into(),
+            format!("the caller went on after a failed call; top-level finalize then returned Ok, but what the successful calls handed in does not read back ({class}): {detail}"),
+        ));
+    }
+    None
+}
+
 fn judge_reader(run: &ReaderRun, reference: &ReaderRun, ctx: &Ctx, st: &mut RunStats) -> Option<(String, String)> {
     let c = ctx.borrow();
     for op in c.log.iter().filter(|o| o.err != 0) {
@@ -207,6 +259,24 @@ fn judge_reader(run: &ReaderRun, reference: &ReaderRun, ctx: &Ctx, st: &mut RunS
             ));
         }
         st.probe("hard_error_surfaced", true);
+    }
+    // operations that met no failing device operation: the values read are those of the
+    // fault-free session, also behind a failed operation on the same reader
+    if run.open.is_ok() {
+        for (i, rec) in run.recs.iter().enumerate() {
+            let hit = c.log.iter().any(|o| o.err != 0 && rec.op_from <= o.no && o.no < rec.op_to);
+            if hit {
+                continue;
+            }
+            if let Some(r) = reference.recs.get(i) {
+                if !rec.result.same_as(&r.result) {
+                    return Some((
+                        "result-differs-behind-fault".into(),
+                        format!("history op #{i} met no device error but gives {}, in the fault-free session {}", rec.result.brief(), r.result.brief()),
+                    ));
+                }
+            }
+        }
     }
     None
 }
@@ -326,7 +396,13 @@ fn run_faults(case: &Case, target: Target, point: &Option<Fault>, st: &mut RunSt
                 let res = guard(|| {
                     let (exec, image, ctx, disk) = writer_run(case, vec![fc.clone()], true);
                     let mut local = RunStats::default();
-                    let v = judge_writer(&exec, &image, &ctx, &disk, &reference, &mut local);
+                    let v = if case.prog.on_error == OnError::Stop {
+                        judge_writer(&exec, &image, &ctx, &disk, &reference, &mut local)
+                    } else if exec.first_failure.is_some() {
+                        judge_persistent(&exec, &image, &ctx, &mut local)
+                    } else {
+                        None
+                    };
                     local.absorb_ctx(&ctx);
                     let fired = !ctx.borrow().fired.is_empty();
                     let call = exec.calls.iter().find(|cl| cl.op_from <= fc.at && fc.at < cl.op_to).map(|c| label_class(&c.label));
@@ -345,6 +421,36 @@ fn run_faults(case: &Case, target: Target, point: &Option<Fault>, st: &mut RunSt
                         merge(st, local);
                         if let Some((class, detail)) = v {
                             return Outcome::fail_narrowed(class, format!("fault {f:?}: {detail}"), narrowed);
+                        }
+                        // the same fault met by callers that do not stop at the failed call
+                        if fired && case.persistent && case.prog.on_error == OnError::Stop {
+                            for mode in [OnError::Continue, OnError::RetryFinalize] {
+                                st.evaluations += 1;
+                                let pc = Case { prog: Program { on_error: mode, ..case.prog.clone() }, persistent: false, ..case.clone() };
+                                let fc = f.clone();
+                                let res = guard(|| {
+                                    let (exec, image, ctx, _disk) = writer_run(&pc, vec![fc.clone()], true);
+                                    let mut local = RunStats::default();
+                                    let v = if exec.first_failure.is_some() { judge_persistent(&exec, &image, &ctx, &mut local) } else { None };
+                                    (v, local)
+                                });
+                                let narrowed = Case { mode: Mode::Faults { target, point: Some(f.clone()) }, ..pc.clone() };
+                                match res {
+                                    Err((loc, msg)) => {
+                                        if loc.contains("verif/sim/") {
+                                            panic!("harness panic at {loc}: {msg}");
+                                        }
+                                        let short = loc.rsplit("/repo/").next().unwrap_or(&loc).to_string();
+                                        return Outcome::fail_narrowed(format!("panic@{short}"), format!("panic with fault {f:?} and a caller that goes on ({mode:?}): {msg} at {loc}"), narrowed);
+                                    }
+                                    Ok((v, local)) => {
+                                        merge(st, local);
+                                        if let Some((class, detail)) = v {
+                                            return Outcome::fail_narrowed(class, format!("fault {f:?}, caller {mode:?}: {detail}"), narrowed);
+                                        }
+                                    }
+                                }
+                            }
                         }
                         if fired {
                             let mut fp = Digest::new();
@@ -441,9 +547,9 @@ impl Prop for C16 {
     fn meta(&self) -> Meta {
         Meta {
             level: "fault_enumeration",
-            rule: "per run index one small seeded writer program (0-3 items, knob on, <= 40 points per cloud, payloads <= 2.6 KiB). Index % 4 == 3: chunking mode - the program and the read-everything history (validate_crc, raw_xml, open, xml, listings, raw + simple iteration of every cloud, every blob) under 4 transfer schedules (one byte at a time, boundary-biased, 2 random) for device, source pipes and sinks must give byte-identical images and identical results as full transfers. Otherwise: single-error mode, exhaustive per program - the fault-free device-operation sequence (device and pipes on one clock) of the writer program (even indices) or of the reader session (odd) is recorded, and for EVERY operation and every flavour applicable to its kind (hard error; short transfer then error, two cut sizes on reads; EINTR; write returning 0; disk full from that write on) the session is re-run with exactly that fault. Oracle: every device operation that reported an error lies inside an API call that returned Err (iterators: Some(Err)), except EINTR (may be absorbed: then the result must equal the fault-free one) and operations inside Drop; no panic; whenever top-level finalize returned Ok the image equals the fault-free image and is flushed. Distinct = (program shape, fault kind, operation number, API call class); non-trivial = the fault fired".into(),
+            rule: "per run index one small seeded writer program (0-3 items, knob on, <= 40 points per cloud, payloads <= 2.6 KiB). Index % 4 == 3: chunking mode - the program and the read-everything history (validate_crc, raw_xml, open, xml, listings, raw + simple iteration of every cloud, every blob) under 4 transfer schedules (one byte at a time, boundary-biased, 2 random) for device, source pipes and sinks must give byte-identical images and identical results as full transfers. Otherwise: single-error mode, exhaustive per program - the fault-free device-operation sequence (device and pipes on one clock) of the writer program (even indices) or of the reader session (odd) is recorded, and for EVERY operation and every flavour applicable to its kind (hard error of kind Other; an error of another kind - TimedOut, WouldBlock, UnexpectedEof, InvalidData, BrokenPipe, NotFound by operation number, UnexpectedEof on every read; short transfer then error, two cut sizes on reads; EINTR; write returning 0; disk full from that write on) the session is re-run with exactly that fault. Writer runs meet every fault three times: with a caller that stops at the failed call and drops everything, with one that gives up the affected item and goes on with the next call up to the top-level finalize, and with one that calls a failed top-level finalize a second time. Oracle: every device operation that reported an error lies inside an API call that returned Err (iterators: Some(Err)), except EINTR (may be absorbed: then the result must equal the fault-free one) and operations inside Drop; every operation of a reader session that met no failing device operation gives the fault-free result, also behind the failed one; no panic; whenever top-level finalize returned Ok the image equals the fault-free image and is flushed; for the callers that go on: whenever top-level finalize returned Ok the file opens and everything the successful calls handed in reads back. Distinct = (program shape, fault kind, operation number, API call class); non-trivial = the fault fired".into(),
             assumptions: vec![
-                "programs stop at the first failed call (the writer's state after a failed call is undocumented)".into(),
+"in the reader sessions and the chunking mode nothing follows a failed call; what a writer offers after a failed call is judged only through the top-level finalize (it must not report success for an incomplete file)".into(),
                 "EINTR is injected on read and write transfers only".into(),
                 "errors inside Drop are swallowed by design".into(),
             ],
@@ -454,6 +560,7 @@ impl Prop for C16 {
                 "eintr_absorbed".into(),
                 "error_during_drop".into(),
                 "short_writes_happened".into(),
+                "finalize_fails_after_earlier_failure".into(),
             ],
         }
     }
@@ -486,12 +593,12 @@ impl Prop for C16 {
                 Chunk::Random { seed: c.next_u64(), short_permille: 300 },
                 Chunk::Random { seed: c.next_u64(), short_permille: 50 },
             ];
-            Case { prog, wchunk: Chunk::Full, rchunk: Chunk::Full, mode: Mode::Chunking { schedules } }
+            Case { prog, wchunk: Chunk::Full, rchunk: Chunk::Full, mode: Mode::Chunking { schedules }, persistent: false }
         } else {
             let target = if rc.index % 2 == 0 { Target::Writer } else { Target::Reader };
             // full transfers or a light random schedule: keeps the operation sequence short
             let ch = if g.chance(1, 2) { Chunk::Full } else { Chunk::Random { seed: c.next_u64(), short_permille: 50 } };
-            Case { prog, wchunk: ch.clone(), rchunk: ch, mode: Mode::Faults { target, point: None } }
+            Case { prog, wchunk: ch.clone(), rchunk: ch, mode: Mode::Faults { target, point: None }, persistent: target == Target::Writer }
         }
     }
     fn execute(&self, case: &Case, st: &mut RunStats) -> Outcome<Case> {
